@@ -126,6 +126,23 @@ impl State {
     }
 }
 
+#[cfg(feature = "verif_hooks")]
+impl State {
+    /// Verification hook: builds a state from its key and 12-byte nonce
+    /// (4-byte little-endian counter followed by the 8-byte inner nonce).
+    pub fn verif_from_parts(k: &Key, nonce: &Nonce) -> Self {
+        Self {
+            k: *k,
+            nonce: *nonce,
+        }
+    }
+
+    /// Verification hook: returns the state's key and 12-byte nonce.
+    pub fn verif_parts(&self) -> (Key, Nonce) {
+        (self.k, self.nonce)
+    }
+}
+
 /// Generates a random stream key using [crate::rng::copy_randombytes].
 pub fn crypto_secretstream_xchacha20poly1305_keygen(key: &mut Key) {
     copy_randombytes(key);
